@@ -314,6 +314,8 @@ def diff_values(a, b, path, cfg, out):
                     out.append((path, "number:%s" % ka, show(a), show(b)))
             elif not _num_close(a, b, cfg.rtol, cfg.atol):
                 out.append((path, "number-ulps:%s" % ka, show(a), show(b)))
+            elif ka == "float" and float(a) == 0.0 and float(b) == 0.0 and math.copysign(1, float(a)) != math.copysign(1, float(b)):
+                out.append((path, "number-sign-of-zero", show(a), show(b)))
         else:
             if not _num_close(a, b, cfg.rtol, cfg.atol):
                 out.append((path, "number-close:%s/%s" % (ka, kb), show(a), show(b)))
@@ -556,6 +558,9 @@ def diff_ref_value(r, x, path, out, seed="ref"):
         return
     if abs(z - complex(r.v)) > refnum.tolerance(r):
         out.append((path, "value:%s" % r.k, repr(r), show(x)))
+    elif r.k == "f" and r.e == 0 and r.v == 0 and kx == "float" and math.copysign(1, r.v) != math.copysign(1, float(x)):
+        # an exact zero (a literal, possibly negated) keeps its sign
+        out.append((path, "sign-of-zero", repr(r), show(x)))
 
 
 def diff_ref(ref, c, variables=False, seed="ref"):
